@@ -84,6 +84,10 @@ def cases(ctx):
             c["minlength"] = rng.choice([None, None, 0, 3, 9]) if c["op"] == "sum" else None
         elif kind in ("relabel", "remove", "lbbox", "rmbord"):
             c["labels"] = rand_labels(rng, N)
+            if kind == "lbbox" and rng.random() < 0.15:
+                # the largest label the dtype can hold: the row count max+1 must not wrap around
+                c["ldtype"] = "uint8"
+                c["labels"][rng.randrange(N)] = 255
             if kind == "remove":
                 c["regions"] = [rng.randint(0, 7) for _ in range(rng.randint(0, 4))]
             if kind == "rmbord":
